@@ -124,6 +124,19 @@ func getRobustWorld(seed int64) *robustWorld {
 		w.edMsg = []byte("robust message")
 		w.edSig = ed25519.Sign(edPriv, w.edMsg)
 		w.spki, _ = util.MarshalTokenKeyPSSOID(&rsaKey(0).PublicKey)
+		// the honest input of every consumer, by name (the executing process need not be the generating one)
+		w.honestIn = map[string][]byte{
+			"t1.FinalizeToken": w.a1.resp, "t2.FinalizeToken": w.a2.resp, "t3.FinalizeToken": w.a3.resp,
+			"t5.FinalizeTokens/1": w.a5[1].resp, "t5.FinalizeTokens/3": w.a5[3].resp,
+			"t1.Evaluate": w.a1.req, "t1.EvaluateElem": w.a1.req[3:], "t2.Evaluate": w.a2.req, "t2.EvaluateMsg": w.a2.req[3:],
+			"t5.Evaluate": w.a5[3].req, "t5.EvaluateElem": w.a5[1].req[4:],
+			"t1.Verify": w.a1.token.Marshal(), "t5.Verify": w.a5[1].tokens[0].Marshal(),
+			"t3.Evaluate": w.a3.req, "attester.VerifyRequest": w.a3.req, "attester.Session": w.a3.req,
+			"attester.VerifyRequest/clientKey": w.a3.clientKey, "attester.VerifyRequest/blind": w.a3.blind,
+			"attester.FinalizeIndex/blindedKey": w.a3.blindedRK, "attester.FinalizeIndex/clientKey": w.a3.clientKey,
+			"attester.FinalizeIndex/blind": w.a3.blind,
+			"ecdsa.VerifyASN1":             w.ecSig, "ed25519.Verify": w.edSig, "ed25519.Verify/key": w.edPub, "util.UnmarshalTokenKey": w.spki,
+		}
 		rw = w
 	})
 	return rw
@@ -215,6 +228,21 @@ func callConsumer(w *robustWorld, fn string, in []byte, aux ev) string {
 			return "error"
 		}
 		return resErr(w.attester.VerifyRequest(*req, w.a3.blind, w.a3.clientKey, w.anon))
+	case "attester.Session":
+		// a fresh attester whose FIRST contact with the client is the (possibly corrupted) request `in`; the client's
+		// honest request and its index finalization follow. A refused request must not leave anything behind that
+		// breaks the calls after it.
+		att := type3.NewRateLimitedAttester(newMemCache())
+		req := new(type3.RateLimitedTokenRequest)
+		if req.Unmarshal(in) {
+			att.VerifyRequest(*req, w.a3.blind, w.a3.clientKey, w.anon)
+		}
+		att.VerifyRequest(*w.a3reg, randBytes(newRand(1, "wrong-blind"), 48), w.a3.clientKey, w.anon) // refused: wrong blind
+		if err := att.VerifyRequest(*w.a3reg, w.a3.blind, w.a3.clientKey, w.anon); err != nil {
+			return "error"
+		}
+		_, err := att.FinalizeIndex(w.a3.clientKey, w.a3.blind, w.a3.blindedRK, w.anon)
+		return resErr(err)
 	case "attester.VerifyRequest/fields": // arbitrary field lengths (a decoded request need not come from Unmarshal)
 		req := type3.RateLimitedTokenRequest{RequestKey: gB(aux, "request_key"), NameKeyID: gB(aux, "name_key_id"),
 			EncryptedTokenRequest: gB(aux, "enc_req"), Signature: in}
@@ -344,6 +372,7 @@ func genRobust(c *ctx, emit func(ev)) {
 	suite("t5.Verify", w.a5[1].tokens[0].Marshal(), nil, true)
 	suite("t3.Evaluate", w.a3.req, []lenField{{2 + 49 + 32, "u16"}}, true)
 	suite("attester.VerifyRequest", w.a3.req, []lenField{{2 + 49 + 32, "u16"}}, true)
+	suite("attester.Session", w.a3.req, []lenField{{2 + 49 + 32, "u16"}}, true)
 	suite("attester.VerifyRequest/clientKey", w.a3.clientKey, nil, true)
 	suite("attester.VerifyRequest/blind", w.a3.blind, nil, true)
 	suite("attester.FinalizeIndex/blindedKey", w.a3.blindedRK, nil, true)
